@@ -20,6 +20,7 @@
 -/
 import ASV.Model.RegionExtract
 import ASV.Model.RegionAnnotations
+import ASV.Model.LocOps
 import ASV.Spec.Bases
 namespace ASV.RegionExtract
 open ASV
@@ -432,5 +433,21 @@ def heapOfTree (t : AnnTree) : AHeap × Nat :=
     let (h1, entries) := allocEntries [] m
     let (h2, c) := alloc h1 (.comments entries)
     alloc h2 (.top t.other (some c))
+
+/-- the image of a location in file coordinates, as a location (one forward part per stretch of bases) -/
+def imageLoc (L : Int) (rd : RegionData) (l : Loc) : Loc :=
+  Loc.ofParts ((imageCanon L rd l).map fun iv => (⟨iv.1, iv.2, .fwd⟩ : Part))
+
+/-- KF-C12-circular-file-reconnects: the region file of a circular record says `topology: circular` itself, and a
+    record loading it re-forms every candidate cluster from its protoclusters with `connect_locations(…,
+    wrap_point = file length)`; for a candidate cluster whose protoclusters leave a gap of more than half the file
+    (never formed by `create_candidate_clusters`, whose members overlap in a chain, but a legal `CandidateCluster`)
+    the shorter way round is over the file's ends and the candidate — and with it the region — comes back as an
+    origin-spanning one -/
+def fileReconnects (circular : Bool) (L : Int) (rd : RegionData) : Bool :=
+  circular && rd.cands.any fun c =>
+    match connect (c.protos.map fun p => imageLoc L rd p.loc) (some (regionLen L rd)) with
+    | .ok l => l.canon != imageCanon L rd c.loc
+    | .error _ => true
 
 end ASV.RegionExtract
